@@ -472,8 +472,12 @@ def _b_any(interp, st, args, kw):
 
 
 def _b_getattr(interp, st, args, kw):
-    name = args[1]
+    name = interp.resolve(st, args[1])
     if not isinstance(name, str):
+        obj = interp.resolve(st, args[0])
+        # an object without class definition whose contract provides __getattr__ (stub of a table: getattr(table, symbol))
+        if isinstance(obj, VObj) and not isinstance(obj.cls, tuple) and ("%s.__getattr__" % obj.cls) in interp.contracts:
+            return interp.contracts["%s.__getattr__" % obj.cls](interp, st, [obj, name], {})
         raise Unsupported("getattr with symbolic name")
     if len(args) == 3:
         try:
@@ -527,6 +531,24 @@ def _b_sorted(interp, st, args, kw):
             pos = len(out)
             for i, y in enumerate(out):
                 if interp.truth(st, num_cmp("<", x, y)):
+                    pos = i
+                    break
+            out.insert(pos, x)
+        return VList(out)
+    if not kw and len(items) <= 4 and all(isinstance(interp.resolve(st, x), VTuple) and len(interp.resolve(st, x).items) >= 1
+                                        and is_num(interp.resolve(st, interp.resolve(st, x).items[0])) for x in items):
+        # tuples led by symbolic numbers (dict items keyed by numbers): ordered by the leading number; a possible tie would
+        # compare the second components, which is not modelled
+        out = []
+        for x in items:
+            x = interp.resolve(st, x)
+            x0 = interp.resolve(st, x.items[0])
+            pos = len(out)
+            for i, y in enumerate(out):
+                y0 = interp.resolve(st, y.items[0])
+                if st.feasible(to_z3num(x0) == to_z3num(y0)):
+                    raise Unsupported("sorted() of tuples with possibly equal leading numbers")
+                if interp.truth(st, num_cmp("<", x0, y0)):
                     pos = i
                     break
             out.insert(pos, x)
